@@ -1,9 +1,10 @@
 """C03 — timestamps <-> epoch seconds (tracklib/core/obs_time.py).
 
-Two models are driven: the integer model (commands read/abs/cmp/add; what T1-T6 are about) and the generic model
+Three models are driven: the model of the `zone` label and of the objects (command prog: programs of statements over a store of
+ObsTime objects, run on real objects and in Lean; what Z1-Z13 are about), and the two models of the conversions: the integer model (commands read/abs/cmp/add; what T1-T6 are about) and the generic model
 of the float path instantiated at IEEE doubles (readf/absf/rtf/addf/cmpf/subf; what T7-T14 are about in exact
-arithmetic). The correspondence with the second one is exact (fields and bit patterns); the first one is compared
-up to the documented "one millisecond low" of the float code. The oracle (`spec`) uses only the calendar of the
+arithmetic). The correspondence with the float-path model and with the program model (itself at IEEE doubles) is exact (fields and
+bit patterns); the integer model is compared up to the documented "one millisecond low" of the float code. The oracle (`spec`) uses only the calendar of the
 standard library and exact rationals."""
 import calendar, datetime, math
 from fractions import Fraction
@@ -52,6 +53,68 @@ def unhexs(tok):
     return "" if tok == "_" else bytes.fromhex(tok).decode("latin-1")
 
 
+ATTRS = ["year", "month", "day", "hour", "min", "sec", "ms", "zone"]
+DAY_NAMES = ["Mon", "Tue", "Wed", "Thu", "Fri", "Sat", "Sun"]
+OBJ_OPS = ("new", "read", "add", "conv", "copy", "rt")   # statements that return one new object
+
+
+def prog_layout(ops):
+    """[(first slot, number of new objects)] per statement of a program, or None when a statement refers to an object
+    that does not exist yet (or to a track that was not built)"""
+    n, track, out = 0, None, []
+    for op in ops:
+        k = op[0]
+        refs = {"add": op[1:2], "conv": op[1:2], "copy": op[1:2], "rt": op[1:2], "set": op[1:2], "abs": op[1:2], "pz": op[1:2],
+                "tz": op[1:2], "dow": op[1:2], "cmp": op[1:3], "sub": op[1:3], "trk": op[1] if k == "trk" else []}.get(k, [])
+        if any((not isinstance(r, int)) or r < 0 or r >= n for r in refs):
+            return None
+        if k in OBJ_OPS:
+            out.append((n, 1)); n += 1
+        elif k in ("tconv", "tadd"):
+            if not track:
+                return None
+            out.append((n, len(track))); track = list(range(n, n + len(track))); n += len(track)
+        else:
+            if k == "trk":
+                if not op[1]:
+                    return None
+                track = list(op[1])
+            if k in ("tget", "tset") and not track:
+                return None
+            out.append((n, 0))
+    return out
+
+
+def prog_without(ops, k):
+    """the program without statement k, later references renumbered; None if something later needs what it creates"""
+    lay = prog_layout(ops)
+    if lay is None:
+        return None
+    a, c = lay[k]
+
+    def ren(r):
+        if a <= r < a + c:
+            raise KeyError(r)
+        return r - c if r >= a + c else r
+    out = []
+    try:
+        for j, op in enumerate(ops):
+            if j == k:
+                continue
+            op = list(op)
+            if j > k:
+                if op[0] in ("add", "conv", "copy", "rt", "set", "abs", "pz", "tz", "dow"):
+                    op[1] = ren(op[1])
+                elif op[0] in ("cmp", "sub"):
+                    op[1], op[2] = ren(op[1]), ren(op[2])
+                elif op[0] == "trk":
+                    op[1] = [ren(r) for r in op[1]]
+            out.append(op)
+    except KeyError:
+        return None
+    return out if prog_layout(out) is not None else None
+
+
 DEFAULT_FMT = "2D/2M/4Y 2h:2m:2s"
 YEAR_2400_END = 13569465600 + 366 * 86400  # first second of 2401
 MS = Fraction(1, 1000)
@@ -86,17 +149,49 @@ class P(Prop):
         ("TracklibVerif.Props.C03", "TV.C03.cmpZ_toZ", "the comparison cascades on float-path stamps are those of the integer model"),
         ("TracklibVerif.Props.C03", "TV.C03.readUnixG_monotone", "0 <= x <= y implies readUnixTime(x) <= readUnixTime(y)"),
         ("TracklibVerif.Props.C03", "TV.C03.default_is_epoch", "ObsTime() is the stamp of instant 0"),
+        ("TracklibVerif.Props.C03", "TV.C03.zone_not_read", "toAbsTime(), -, the round trip, addSec/Min/Hour/Day and getDayOfWeek never read the zone label: same fields, other label, same answers"),
+        ("TracklibVerif.Props.C03", "TV.C03.results_zone", "readUnixTime / addSec ... / the round trip return an object in zone 0 whatever the operand's label; convertToZone(z) returns one labelled z"),
+        ("TracklibVerif.Props.C03", "TV.C03.convertToZoneG_eq", "convertToZone(z) on a well-formed stamp labelled z0, run operation for operation in exact arithmetic, = the integer model's stamp at toAbsMs + 3 600 000 (z - z0), labelled z"),
+        ("TracklibVerif.Props.C03", "TV.C03.convertToZone_spec", "convertToZone: well formed, moves the instant by exactly z - z0 hours, keeps toAbsTime() - 3600*zone, keeps the minute, second and millisecond fields"),
+        ("TracklibVerif.Props.C03", "TV.C03.convertToZone_back", "converting to a zone and back gives the stamp one started from"),
+        ("TracklibVerif.Props.C03", "TV.C03.convertToZone_same", "converting to the zone the stamp is in changes nothing"),
+        ("TracklibVerif.Props.C03", "TV.C03.convertToZone_comp", "two zone conversions in a row are one"),
+        ("TracklibVerif.Props.C03", "TV.C03.convertToZone_order", "two stamps of one zone converted to one zone keep <, >, == and their distance"),
+        ("TracklibVerif.Props.C03", "TV.C03.setTimeZone_spec", "Track.setTimeZone(z) relabels only: calendar fields untouched, every label z, getTimeZone() = z"),
+        ("TracklibVerif.Props.C03", "TV.C03.convertToTimeZone_eq", "Track.convertToTimeZone(z) is convertToZone(z) stamp by stamp (each with its own label), exact arithmetic"),
+        ("TracklibVerif.Props.C03", "TV.C03.addSeconds_whole", "Track.addSeconds(k), k whole (negative included): every stamp moves by exactly k seconds; results in zone 0"),
+        ("TracklibVerif.Props.C03", "TV.C03.dayOfWeek_spec", "getDayOfWeek() of a well-formed stamp is (proleptic Gregorian day number + 3) mod 7 in Mon..Sun, whatever the label"),
+        ("TracklibVerif.Props.C03", "TV.C03.step_frame", "objects: no conversion, offset, comparison, copy or Track.convertToTimeZone/addSeconds changes an existing object (its operand included); only `o.field = v` and Track.setTimeZone write, and only into their targets"),
+        ("TracklibVerif.Props.C03", "TV.C03.step_fresh", "objects: a call that returns a stamp returns a new object (appended to the store), and readUnixTime(x) does not depend on the state"),
+        ("TracklibVerif.Props.C03", "TV.C03.run_frame", "objects, whole programs: a program without attribute assignments and without Track.setTimeZone leaves every object that existed before it exactly as it was"),
+        ("TracklibVerif.Props.C03", "TV.C03.read_again", "readUnixTime(x) after any program run on its earlier result (attribute assignments included) gives the same stamp again"),
+        ("TracklibVerif.Props.C03", "TV.C03.printZone_inj", "printZone() is Z exactly for zone 0 and distinct zones -24..+24 print differently"),
     ]
     partial = []
     open_statements = ["IEEE rounding is outside the theorems (ordered field, exact int()): the two roundings of toAbsTime() (ms/1000.0 and the sum) make a stamp with a non-zero "
                        "millisecond read back one millisecond low (57 -> 56), and float(toAbsTime()+nb) is rounded to the ~2e-7..2e-6 s grid of epoch-scale doubles; both are within the "
-                       "property's millisecond and are covered by the bit-exact correspondence of the same definitions instantiated at Float, not by a theorem"]
+                       "property's millisecond and are covered by the bit-exact correspondence of the same definitions instantiated at Float, not by a theorem",
+                       "object identity is a statement about the interpreter of programs (every call that returns a stamp appends a new object): that the Python calls behave like that "
+                       "interpreter is the correspondence of the `prog` stream (outputs, final state of every object, `is`), not a theorem about CPython",
+                       "convertToZone / Track.convertToTimeZone / Track.addSeconds theorems are for exact arithmetic and targets not before 1970; before 1970 (negative fields) and IEEE rounding: correspondence at Float only. "
+                       "TrackCollection.convertToTimeZone (calls Track.convertToZone, which does not exist) and Track.roundTimestamps (calls ObsTime.round, which does not exist) raise AttributeError on every input: not modelled, not generated"]
     modelled = ("tracklib/core/obs_time.py: ObsTime.readUnixTime on a float argument, operation for operation (readUnixG: year loop on `elapsed - sec` with the integer accumulator, "
                 "month loop, int(e/86400), int(e/3600), int(e/60), int(e), ms = int(frac*1000)) and on integers (readUnixSec/readUnixMs); toAbsTime (integer `seconds`, then "
                 "float(seconds) + ms/1000.0); addSec/addMin/addHour/addDay with int, fractional and negative amounts; __sub__; __eq__/__ne__/__lt__/__gt__/__le__/__ge__; "
                 "ObsTime() defaults. The generic definitions are instantiated at Float in the driver (bit-exact) and at an ordered field in the theorems. "
+                "The `zone` attribute and the objects (Model/ObsTimeZone.lean): ObsTime(..., zone=z), convertToZone, printZone, timeWithZone (fixed format + zone code; the print "
+                "format is put back), getDayOfWeek, copy, attribute assignment; core/track.py Track.setTimeZone / getTimeZone / convertToTimeZone / addSeconds on a track that "
+                "refers to the timestamp objects themselves; programs of such statements over a store in which every call that returns a stamp appends a new object "
+                "(driver command `prog`; the harness compares every output, the final state of every object, which objects are identical, which objects the track holds). "
                 "The string constructor / readTimestamp / __str__ are the C13 model (driver command C13.time), used here for the `ctor` stream")
-    rule = ("days enumerated from 1970-01-01 (all days to 2099 in thorough; the boundary days of every year in quick) x 4 intra-day instants; "
+    rule = ("programs of 3-20 statements on real objects (new with a zone label, readUnixTime of int / float / numpy scalars, addSec..addDay, convertToZone, copy, round trip, "
+            "attribute assignments that keep a stamp well formed, toAbsTime, the six comparisons, -, printZone, timeWithZone, getDayOfWeek, Track(...) on existing timestamp objects, "
+            "getTimeZone, setTimeZone, convertToTimeZone, addSeconds): a few seconds values, amounts and zones are drawn per program and used again and again, so the same conversion is "
+            "asked for before and after its earlier result was modified; half of the programs start from a template (same value read twice around a modification, same offset twice, "
+            "a zone conversion between two reads of the instant it lands on, a zone-labelled stamp through round trip/offset/order, a track labelled-shifted-converted, there-and-back); "
+            "every statement is judged by the oracle on the state its operands had when it ran; assignments are undone at the end of the case. convertToZone for every ordered pair of zones "
+            "-12..+14 on four boundary stamps. A third of the stamps of the day/cmp/add/addf/seq streams carry a zone label -12..+14 (ObsTime(..., zone=z)). "
+            "days enumerated from 1970-01-01 (all days to 2099 in thorough; the boundary days of every year in quick) x 4 intra-day instants; "
             "whole boundary days second by second; century years 2100..2400; ordered pairs one unit apart in each field; offsets crossing day/month/year; "
             "float instants up to year 2400 by class (uniform fraction, k/1000.0, fraction in [0.999,1) and [0.9995,1), 1-2^-j and 2^-j, one to a few ulps below/above a second, "
             "minute, hour, midnight, month or year boundary, interpolated t1+(t2-t1)*w, whole floats, below one day, negative = correspondence only); pairs of float instants "
@@ -107,16 +202,20 @@ class P(Prop):
 
     def setup(self):
         from tracklib.core.obs_time import ObsTime
+        from tracklib.core import Obs, ENUCoords, Track
         self.T = ObsTime
+        self.Obs, self.ENU, self.Track = Obs, ENUCoords, Track
 
     # ---------------------------------------------------------------- generators
     def exhaustive_scopes(self, tier):
         if tier == "thorough":
-            return ["every calendar day 1970-01-01..2099-12-31 x {00:00:00.000, 12:00:00.000, 23:59:59.999, random ms}",
+            return ["convertToZone there and back, comparison, printZone, timeWithZone, getDayOfWeek for every ordered pair of zones -12..+14 on 4 boundary stamps",
+                    "every calendar day 1970-01-01..2099-12-31 x {00:00:00.000, 12:00:00.000, 23:59:59.999, random ms}",
                     "every second within 30 min of both midnights of 28 Feb, 29 Feb/1 Mar, 31 Dec, 1 Jan for every year 1970..2099; every second of those four days for 1970, 1971, 1972, 1999, 2000, 2099 and two seeded years",
                     "boundary days of 2100, 2200, 2300, 2400",
                     "the doubles 1, 2 and 3 ulps below and 1 ulp above the first second of every year 1971..2100 and of every month of 1972, 1999, 2000, 2100"]
-        return ["boundary days (1 Jan, 28 Feb, 29 Feb or 1 Mar, 31 Dec) of every year 1970..2099 and of 2100, 2200, 2300, 2400 x 4 instants",
+        return ["convertToZone there and back, comparison, printZone, timeWithZone, getDayOfWeek for every ordered pair of zones -12..+14 on 4 boundary stamps",
+                "boundary days (1 Jan, 28 Feb, 29 Feb or 1 Mar, 31 Dec) of every year 1970..2099 and of 2100, 2200, 2300, 2400 x 4 instants",
                 "the doubles 1 ulp below and 1 ulp above the first second of every year 1971..2100"]
 
     def boundary_days(self, y):
@@ -202,6 +301,125 @@ class P(Prop):
             return float(rng.choice([-1, -59, -60, -61, -3600, -86400, -86401, -365, -366, -31, -28])), rng.random() < 0.5
         return rng.choice([1, 59, 60, 3599, 86399, 86400]) + rng.choice([0.9996, 0.5, 0.0005]), False
 
+    # -- programs over a store of objects (zones, aliasing, state left in results) -----------
+    ZONES = list(range(-12, 15))
+
+    def rand_zone(self, rng):
+        return rng.choice([0, 1, 2, -1, -5, 12, 14, -12, rng.choice(self.ZONES), rng.choice(self.ZONES)])
+
+    def rand_set(self, rng, i):
+        """attribute assignments that keep a well-formed stamp well formed (a month or year only after a day <= 28)"""
+        c = rng.randrange(8)
+        if c == 0:
+            return [["set", i, 3, 0], ["set", i, 4, 0], ["set", i, 5, 0], ["set", i, 6, 0]]   # truncate to midnight
+        if c == 1:
+            return [["set", i, 2, 1]]                                                         # first of the month
+        if c == 2:
+            return [["set", i, 7, self.rand_zone(rng)]]
+        if c == 3:
+            return [["set", i, 2, rng.randrange(1, 29)], ["set", i, 1, rng.randrange(1, 13)]]
+        if c == 4:
+            return [["set", i, 2, rng.randrange(1, 29)], ["set", i, 0, rng.choice([1970, 1972, 2000, 2100, rng.randrange(1970, 2100)])]]
+        f = rng.choice([3, 4, 5, 6])
+        return [["set", i, f, rng.randrange([24, 60, 60, 1000][f - 3])]]
+
+    def rand_read(self, rng, pool):
+        x = rng.choice(pool)
+        form = "f"
+        if x == math.floor(x) and rng.random() < 0.5:
+            form = rng.choice(["i", "i", "i", "ni"])
+        elif rng.random() < 0.15:
+            form = "np"
+        return ["read", fbits(x), form]
+
+    def rand_add(self, rng, i, amounts):
+        unit, nb, as_int = rng.choice(amounts)
+        return ["add", i, unit, fbits(nb), bool(as_int)]
+
+    def rand_prog(self, rng):
+        """a program of 3..12 statements: a few seconds values / amounts / zones are drawn first and used again and again,
+        so that the same conversion is asked for several times with modifications of earlier results in between"""
+        pool = [self.rand_float(rng) for _ in range(rng.choice([1, 1, 2, 3]))]
+        pool += [float(math.floor(x)) for x in pool if rng.random() < 0.4]
+        amounts = []
+        for _ in range(rng.choice([1, 1, 2])):
+            unit = rng.choice(["sec", "sec", "min", "hour", "day"])
+            amounts.append((unit,) + self.rand_amount(rng, unit))
+        zones = [self.rand_zone(rng) for _ in range(2)]
+        ops, n, track = [], 0, 0
+
+        def new():
+            f = self.rand_stamp(rng)
+            f[6] = 0 if rng.random() < 0.6 else f[6]
+            return ["new", f, rng.choice([0, rng.choice(zones)])]
+        t = rng.randrange(8)
+        if t == 0:      # the same value converted again after its first result was modified
+            ops = [self.rand_read(rng, pool[:1])] + self.rand_set(rng, 0) + [self.rand_read(rng, pool[:1])]
+        elif t == 1:    # the same offset applied again after its first result was modified
+            a = self.rand_add(rng, 0, amounts[:1])
+            ops = [new(), a] + self.rand_set(rng, 1) + [list(a)]
+        elif t == 2:    # a zone conversion between two conversions of the instant it lands on
+            z = rng.choice([z for z in self.ZONES if z != 0])
+            u = self.rand_second(rng) + 86400
+            ops = [["read", fbits(float(u - 3600 * z)), "f"], ["conv", 0, z], ["read", fbits(float(u)), rng.choice("fi")], ["conv", 2, 0], ["cmp", 2, 3]]
+        elif t == 3:    # a stamp labelled with a zone: seconds, round trip, offsets, order
+            ops = [["new", self.rand_stamp(rng), rng.choice([z for z in self.ZONES if z != 0])], ["rt", 0], self.rand_add(rng, 0, amounts), new(), ["cmp", 0, 3], ["sub", 0, 3]]
+        elif t == 4:    # a track: label, shift, read the label, convert
+            ops = [new(), new(), ["trk", [0, 1]], ["tset", zones[0]], ["tadd", fbits(rng.choice([30.0, amounts[0][1]])), False],
+                   ["tget"], ["tconv", zones[1]]]
+        elif t == 5:    # conversion to a zone and back
+            ops = [["new", self.rand_stamp(rng), zones[0]], ["conv", 0, zones[1]], ["conv", 1, zones[0]], ["cmp", 0, 2], ["tz", 1]]
+        lay = prog_layout(ops)
+        n = sum(c for _, c in lay) if lay else 0
+        track = 0
+        for op in ops:
+            if op[0] == "trk":
+                track = len(op[1])
+        for _ in range(rng.randrange(2, 9) if t < 6 else rng.randrange(4, 13)):
+            c = rng.randrange(20)
+            i = rng.randrange(n) if n else 0
+            j = rng.randrange(n) if n else 0
+            if n == 0 or c == 0:
+                ops.append(new()); n += 1
+            elif c in (1, 2, 3):
+                ops.append(self.rand_read(rng, pool)); n += 1
+            elif c in (4, 5):
+                ops.append(self.rand_add(rng, i, amounts)); n += 1
+            elif c == 6:
+                ops.append(["conv", i, rng.choice(zones + [0])]); n += 1
+            elif c == 7:
+                ops.append([rng.choice(["copy", "rt"]), i]); n += 1
+            elif c in (8, 9, 10):
+                ops += self.rand_set(rng, i)
+            elif c == 11:
+                ops.append(["abs", i])
+            elif c in (12, 13):
+                ops.append([rng.choice(["cmp", "cmp", "sub"]), i, j])
+            elif c == 14:
+                ops.append([rng.choice(["pz", "tz", "dow"]), i])
+            elif c == 15:
+                sl = [rng.randrange(n) for _ in range(rng.randrange(1, 4))]
+                ops.append(["trk", sl]); track = len(sl)
+            elif track and c == 16:
+                ops.append(rng.choice([["tget"], ["tset", rng.choice(zones)]]))
+            elif track and c == 17:
+                ops.append(["tconv", rng.choice(zones + [0])]); n += track
+            elif track and c == 18:
+                ops.append(["tadd", fbits(rng.choice([30.0, 0.0, 86400.0, 0.5, -60.0, amounts[0][1]])), False]); n += track
+            else:
+                ops.append(self.rand_read(rng, pool)); n += 1
+        assert prog_layout(ops) is not None, ops
+        return {"kind": "prog", "ops": ops}
+
+    def zone_table(self):
+        """convertToZone for every ordered pair of zones -12..+14 on four boundary stamps: there, back, the labels"""
+        out = []
+        for f in ([1971, 1, 1, 0, 0, 0, 0], [2000, 12, 31, 23, 59, 59, 999], [2024, 2, 29, 12, 0, 0, 0], [2100, 3, 1, 0, 30, 0, 0]):
+            for z0 in self.ZONES:
+                for z in self.ZONES:
+                    out.append({"kind": "prog", "ops": [["new", f, z0], ["conv", 0, z], ["conv", 1, z0], ["cmp", 0, 2], ["pz", 1], ["tz", 1], ["dow", 1]]})
+        return out
+
     def cases(self, rng, tier):
         out = []
         years = list(range(1970, 2100))
@@ -210,6 +428,11 @@ class P(Prop):
         def instants(y, m, d):
             return [(0, 0, 0, 0), (12, 0, 0, 0), (23, 59, 59, 999),
                     (rng.randrange(24), rng.randrange(60), rng.randrange(60), rng.randrange(1000))]
+        # programs first in the list: a failure that needs a modification made earlier is then reported by the program that
+        # makes it, as a self-contained case
+        for _ in range(6000 if quick else 60000):
+            out.append(self.rand_prog(rng))
+        out += self.zone_table()
         # sequences of conversions on one interpreter state (a result must not depend on the calls made before):
         # the same month/day in several years, the same year in several months, unrelated stamps. First in the list,
         # so that a failure that needs an earlier call is reported as a self-contained case.
@@ -328,6 +551,12 @@ class P(Prop):
             f = self.rand_stamp(rng)
             f[6] = 0
             out.append({"kind": "ctor", "f": f})
+        # a third of the stamps built from fields carry a zone label: no sentence of the property depends on it
+        nz = {"day": 1, "cmp": 2, "add": 1, "addf": 1}
+        for c in out:
+            n = len(c["fs"]) if c["kind"] == "seq" else nz.get(c["kind"])
+            if n and rng.random() < 0.34:
+                c["z"] = [self.rand_zone(rng) for _ in range(n)]
         return out
 
     def search_cases(self, rng):
@@ -355,6 +584,8 @@ class P(Prop):
 
     def describe(self, case):
         t = {"kind": case["kind"]}
+        if case["kind"] in ("day", "cmp", "add", "addf", "seq"):
+            t["zone_label"] = any(case.get("z") or [])
         if case["kind"] == "day":
             f = case["f"]
             t["daytype"] = ("jan1" if f[1:3] == [1, 1] else "dec31" if f[1:3] == [12, 31] else
@@ -364,6 +595,11 @@ class P(Prop):
             t["unit"] = case["unit"]
         if case["kind"] == "rdf":
             t["float_class"] = case.get("cls", "?")
+        if case["kind"] == "prog":
+            names = [op[0] for op in case["ops"]]
+            t["prog_zoned"] = any((op[0] == "new" and op[2] != 0) or op[0] in ("conv", "tset", "tconv") or (op[0] == "set" and op[2] == 7) for op in case["ops"])
+            t["prog_modifies_a_result"] = "set" in names or "tset" in names
+            t["prog_track"] = "trk" in names
         if case["kind"] == "addf":
             nb = bitsf(case["nb"])
             t["amount"] = ("int " if case.get("int") else "") + ("negative" if nb < 0 else "non-negative") + ("" if nb == int(nb) else " fractional")
@@ -373,8 +609,16 @@ class P(Prop):
         return case.get("f") != [1970, 1, 1, 0, 0, 0, 0]
 
     # ---------------------------------------------------------------- implementation
-    def mk(self, f):
+    def mk(self, f, z=0):
+        """ObsTime(fields) — with the `zone` argument when the case labels the stamp with a zone (key "z")"""
+        if z:
+            return self.T(f[0], f[1], f[2], f[3], f[4], f[5], f[6], zone=z)
         return self.T(f[0], f[1], f[2], f[3], f[4], f[5], f[6])
+
+    @staticmethod
+    def zones_of(case, n):
+        z = case.get("z") or [0] * n
+        return list(z) + [0] * (n - len(z))
 
     def fields(self, t):
         return [t.year, t.month, t.day, t.hour, t.min, t.sec, t.ms]
@@ -387,10 +631,143 @@ class P(Prop):
         nb = bitsf(case["nb"])
         return int(nb) if case.get("int") else nb
 
+    def snap(self, t):
+        return self.fields(t) + [t.zone]
+
+    def snap_abs(self, t):
+        return {"o": self.snap(t), "abs": fbits(t.toAbsTime())}
+
+    def run_prog(self, ops):
+        """the statements of a program on real objects. Returns the output of every statement, the state of the operands
+        just before it (`pre`, for the oracle), the final state of every object, which objects are one and the same, and
+        the objects the track refers to. Whatever the program assigned to attributes is put back at the end, so that a
+        case leaves nothing behind in objects the library might have kept."""
+        T = self.T
+        store, outs, pre, undo = [], [], [], []
+        track = None
+
+        def assign(o, attr, v):
+            undo.append((o, attr, getattr(o, attr)))
+            setattr(o, attr, v)
+
+        def arg(bits, as_int):
+            x = bitsf(bits)
+            return int(x) if as_int else x
+        try:
+            for op in ops:
+                k = op[0]
+                if k == "new":
+                    f = op[1]
+                    pre.append([])
+                    store.append(T(f[0], f[1], f[2], f[3], f[4], f[5], f[6], zone=op[2]) if op[2] != 0 else self.mk(f))
+                    outs.append(self.snap_abs(store[-1]))
+                elif k == "read":
+                    x = bitsf(op[1])
+                    if op[2] == "i":
+                        x = int(x)
+                    elif op[2] == "np":
+                        import numpy
+                        x = numpy.float64(x)
+                    elif op[2] == "ni":
+                        import numpy
+                        x = numpy.int64(int(x))
+                    pre.append([])
+                    store.append(T.readUnixTime(x))
+                    outs.append(self.snap_abs(store[-1]))
+                elif k == "add":
+                    o = store[op[1]]
+                    pre.append([self.snap(o)])
+                    store.append({"sec": o.addSec, "min": o.addMin, "hour": o.addHour, "day": o.addDay}[op[2]](arg(op[3], op[4])))
+                    outs.append(self.snap_abs(store[-1]))
+                elif k == "conv":
+                    o = store[op[1]]
+                    pre.append([self.snap(o)])
+                    store.append(o.convertToZone(op[2]))
+                    outs.append(self.snap_abs(store[-1]))
+                elif k == "copy":
+                    o = store[op[1]]
+                    pre.append([self.snap(o)])
+                    store.append(o.copy())
+                    outs.append(self.snap_abs(store[-1]))
+                elif k == "rt":
+                    o = store[op[1]]
+                    pre.append([self.snap(o)])
+                    a = o.toAbsTime()
+                    store.append(T.readUnixTime(a))
+                    outs.append(dict(self.snap_abs(store[-1]), a=fbits(a)))
+                elif k == "set":
+                    o = store[op[1]]
+                    pre.append([self.snap(o)])
+                    assign(o, ATTRS[op[2]], op[3])
+                    outs.append("u")
+                elif k == "abs":
+                    o = store[op[1]]
+                    pre.append([self.snap(o)])
+                    outs.append({"x": fbits(o.toAbsTime())})
+                elif k == "cmp":
+                    a, b = store[op[1]], store[op[2]]
+                    pre.append([self.snap(a), self.snap(b)])
+                    outs.append({"f": [int(a < b), int(a > b), int(a == b), int(a <= b), int(a >= b), int(a != b)],
+                                 "x": [fbits(a.toAbsTime()), fbits(b.toAbsTime())]})
+                elif k == "sub":
+                    a, b = store[op[1]], store[op[2]]
+                    pre.append([self.snap(a), self.snap(b)])
+                    outs.append({"x": fbits(a - b)})
+                elif k == "pz":
+                    o = store[op[1]]
+                    pre.append([self.snap(o)])
+                    outs.append({"s": o.printZone()})
+                elif k == "tz":
+                    o = store[op[1]]
+                    pre.append([self.snap(o)])
+                    before = T.getPrintFormat()
+                    r = o.timeWithZone()
+                    outs.append({"s": r + ("" if T.getPrintFormat() == before else " [print format left as %r]" % T.getPrintFormat())})
+                    T.setPrintFormat(before)
+                elif k == "dow":
+                    o = store[op[1]]
+                    pre.append([self.snap(o)])
+                    outs.append({"s": o.getDayOfWeek()})
+                elif k == "trk":
+                    pre.append([])
+                    track = self.Track([self.Obs(self.ENU(float(n), 0.0, 0.0), store[i]) for n, i in enumerate(op[1])])
+                    outs.append("u")
+                elif k == "tget":
+                    pre.append([self.snap(o.timestamp) for o in track])
+                    outs.append({"i": track.getTimeZone()})
+                elif k == "tset":
+                    pre.append([self.snap(o.timestamp) for o in track])
+                    for o in track:
+                        undo.append((o.timestamp, "zone", o.timestamp.zone))
+                    track.setTimeZone(op[1])
+                    outs.append("u")
+                elif k in ("tconv", "tadd"):
+                    pre.append([self.snap(o.timestamp) for o in track])
+                    if k == "tconv":
+                        track.convertToTimeZone(op[1])
+                    else:
+                        track.addSeconds(arg(op[1], op[2]))
+                    new = [o.timestamp for o in track]
+                    store += new
+                    outs.append({"l": [self.snap_abs(t) for t in new]})
+                else:
+                    raise ValueError(k)
+            alias = [min(j for j in range(len(store)) if store[j] is store[i]) for i in range(len(store))]
+            trk = []
+            if track is not None:
+                for o in track:
+                    trk.append(next((j for j in range(len(store)) if store[j] is o.timestamp), -1))
+            return {"outs": outs, "pre": pre, "store": [self.snap(o) for o in store], "alias": alias, "track": trk}
+        finally:
+            for o, attr, old in reversed(undo):
+                setattr(o, attr, old)
+
     def impl(self, case):
         k = case["kind"]
+        if k == "prog":
+            return self.run_prog(case["ops"])
         if k == "day":
-            t = self.mk(case["f"])
+            t = self.mk(case["f"], self.zones_of(case, 1)[0])
             a = t.toAbsTime()
             back = self.T.readUnixTime(a)
             return {"abs_ms": round(a * 1000), "back": self.fields(back), "abs": fbits(a), "back_abs": fbits(back.toAbsTime())}
@@ -405,15 +782,16 @@ class P(Prop):
             # whatever the calls of earlier cases left behind is overwritten as far as a call can do it
             self.T.readUnixTime(self.mk([1970, 1, 1, 0, 0, 0, 0]).toAbsTime())
             rows = []
-            for f in case["fs"]:
-                a = self.mk(f).toAbsTime()
+            for f, z in zip(case["fs"], self.zones_of(case, len(case["fs"]))):
+                a = self.mk(f, z).toAbsTime()
                 rows.append({"abs": fbits(a), "back": self.fa(self.T.readUnixTime(a))})
             return {"rows": rows}
         if k == "cmp":
-            a, b = self.mk(case["a"]), self.mk(case["b"])
+            za, zb = self.zones_of(case, 2)
+            a, b = self.mk(case["a"], za), self.mk(case["b"], zb)
             return {"ops": [int(a < b), int(a > b), int(a == b), int(a <= b), int(a >= b), int(a != b)], "sub": fbits(a - b)}
         if k == "add":
-            a = self.mk(case["a"])
+            a = self.mk(case["a"], self.zones_of(case, 1)[0])
             r = {"sec": a.addSec, "min": a.addMin, "hour": a.addHour, "day": a.addDay}[case["unit"]](case["nb"])
             return {"res": self.fields(r), "abs": fbits(r.toAbsTime())}
         if k == "rdf":
@@ -423,7 +801,7 @@ class P(Prop):
             return {"a": self.fa(a), "b": self.fa(b),
                     "ops": [int(a < b), int(a > b), int(a == b), int(a <= b), int(a >= b), int(a != b)], "sub": fbits(a - b)}
         if k == "addf":
-            a = self.mk(case["a"])
+            a = self.mk(case["a"], self.zones_of(case, 1)[0])
             r = {"sec": a.addSec, "min": a.addMin, "hour": a.addHour, "day": a.addDay}[case["unit"]](self.amount(case))
             return {"res": self.fa(r), "self": self.fields(a)}
         if k == "ctor":
@@ -446,8 +824,69 @@ class P(Prop):
     # ---------------------------------------------------------------- model
     MULT = {"sec": 1, "min": 60, "hour": 3600, "day": 86400}
 
+    @staticmethod
+    def prog_tokens(ops):
+        t = []
+        for op in ops:
+            k = op[0]
+            if k == "new":
+                t += ["new"] + list(map(str, op[1])) + [str(op[2])]
+            elif k == "read":
+                t += ["read", op[1]]
+            elif k == "add":
+                t += ["add", str(op[1]), op[2], op[3]]
+            elif k == "trk":
+                t += ["trk", ",".join(map(str, op[1]))]
+            elif k == "tadd":
+                t += ["tadd", op[1]]
+            else:
+                t += [k] + list(map(str, op[1:]))
+        return " ".join(t)
+
+    @staticmethod
+    def dobj(tok):
+        """decode `y m d H M S ms zone <bits of toAbsTime()>`"""
+        p = tok.split()
+        return {"o": list(map(int, p[:8])), "abs": p[8]}
+
+    def decode_prog(self, case, reply):
+        if reply.startswith("err:") or reply == "bad-request":
+            return {"err": reply}
+        outs_s, store_s, track_s = reply.split("#")
+        outs = []
+        for r in outs_s.split("|"):
+            tag, _, rest = r.partition(" ")
+            if tag == "o":
+                outs.append(self.dobj(rest))
+            elif tag == "r":
+                a, _, o = rest.partition(" ")
+                outs.append(dict(self.dobj(o), a=a))
+            elif tag == "l":
+                outs.append({"l": [self.dobj(o) for o in rest.split(";")] if rest != "_" else []})
+            elif tag == "x":
+                outs.append({"x": rest})
+            elif tag == "f":
+                p = rest.split()
+                outs.append({"f": list(map(int, p[:6])), "x": p[6:8]})
+            elif tag == "s":
+                outs.append({"s": rest})
+            elif tag == "i":
+                outs.append({"i": int(rest)})
+            elif tag == "u":
+                outs.append("u")
+            else:
+                outs.append({"err": r})
+        for op, o in zip(case["ops"], outs):
+            if op[0] == "dow" and isinstance(o, dict) and "i" in o:
+                o["s"] = DAY_NAMES[o.pop("i")]
+        store = [list(map(int, o.split())) for o in store_s.split(";")] if store_s != "_" else []
+        track = list(map(int, track_s.split(","))) if track_s != "_" else []
+        return {"outs": outs, "store": store, "alias": list(range(len(store))), "track": track}
+
     def requests(self, case):
         k = case["kind"]
+        if k == "prog":
+            return ["C03.prog " + self.prog_tokens(case["ops"])]
         if k == "day":
             f = case["f"]
             ms = oracle_ms(f)  # only used to address the `read` request; `abs` is computed by the model
@@ -485,6 +924,8 @@ class P(Prop):
 
     def decode(self, case, replies):
         k = case["kind"]
+        if k == "prog":
+            return self.decode_prog(case, replies[0])
         if k == "day":
             rt = replies[2].split()
             return {"abs_ms": int(replies[0]), "back": list(map(int, replies[1].split())),
@@ -534,6 +975,18 @@ class P(Prop):
                 return "float path: impl=%s model=%s" % ((impl_out["abs"], bi, impl_out["back_abs"]),
                                                          (model_out["abs"], model_out["backf"], model_out["back_abs"]))
             return None
+        if k == "prog":
+            # outputs, final objects, identity of objects and the track, exactly; `pre` is only there for the oracle
+            a = {x: impl_out.get(x) for x in ("outs", "store", "alias", "track")}
+            if a != model_out:
+                for key in ("outs", "store", "alias", "track"):
+                    if a[key] != model_out.get(key):
+                        if key == "outs" and len(a[key]) == len(model_out[key]):
+                            i = next(i for i in range(len(a[key])) if a[key][i] != model_out[key][i])
+                            return "statement %d %s: impl=%s model=%s" % (i, case["ops"][i], json_short(a[key][i]), json_short(model_out[key][i]))
+                        return "%s: impl=%s model=%s" % (key, json_short(a[key]), json_short(model_out.get(key)))
+                return "impl=%s model=%s" % (json_short(a), json_short(model_out))
+            return None
         if k == "add":
             bi, bm = impl_out["res"], model_out["res"]
             if bi[:6] != bm[:6] or not (bi[6] == bm[6] or (case["a"][6] != 0 and bi[6] == bm[6] - 1)):
@@ -572,10 +1025,133 @@ class P(Prop):
             return "readUnixTime(%r) = %s, calendar says %s" % (x, f, oracle_fields(int(x) * 1000))
         return self.check_abs(f, row["abs"], "readUnixTime(%r) =" % x)
 
+    def check_moved(self, what, pre, amount_s, res):
+        """`res` (fields + zone, abs) was obtained from the well-formed stamp `pre` by adding `amount_s` seconds"""
+        start = Fraction(oracle_ms(pre[:7]), 1000)
+        want = start + amount_s
+        if want < 0:
+            return None   # leads before 1970: outside the property (correspondence only)
+        got = res["o"][:7]
+        if not wellformed(got):
+            return "%s gives the malformed date %s" % (what, got)
+        g = Fraction(oracle_ms(got), 1000)
+        tol = MS + 3 * Fraction(math.ulp(max(1.0, float(start), float(want))))
+        if abs(g - want) > tol:
+            return "%s gives %s: moved by %s s instead of %s s" % (what, got, float(g - start), float(amount_s))
+        if pre[6] == 0 and amount_s.denominator == 1 and got != oracle_fields(int(want * 1000)):
+            return "%s gives %s, expected %s" % (what, got, oracle_fields(int(want * 1000)))
+        return self.check_abs(got, res["abs"], "the result of %s," % what)
+
+    def spec_prog(self, case, out):
+        """Every statement of a program is judged on its own, with the state its operands had when it was executed:
+        what the statement says about conversions, comparisons and offsets does not depend on what was done before
+        with other objects (or with earlier results), nor on the `zone` label of a stamp."""
+        ops = case["ops"]
+        said = lambda i: " (statement %d of %s)" % (i, json_short(ops))
+        for i, (op, o, pre) in enumerate(zip(ops, out["outs"], out["pre"])):
+            k = op[0]
+            wf = [wellformed(q[:7]) for q in pre]
+            m = None
+            if k == "new":
+                if wellformed(op[1]):
+                    if o["o"][:7] != op[1]:
+                        m = "ObsTime(%s, zone=%s) has fields %s" % (op[1], op[2], o["o"][:7])
+                    else:
+                        m = self.check_abs(op[1], o["abs"], "ObsTime(..., zone=%s) =" % op[2])
+            elif k == "read":
+                x = bitsf(op[1])
+                if x >= 0:
+                    m = self.check_read(int(x) if op[2] in ("i", "ni") else x, {"f": o["o"][:7], "abs": o["abs"]})
+            elif k == "rt":
+                if wf[0]:
+                    f = pre[0][:7]
+                    b = o["o"][:7]
+                    m = self.check_abs(f, o["a"], "(zone %s)" % pre[0][7])
+                    if not m:
+                        if not wellformed(b):
+                            m = "round trip of %s (zone %s) gives the malformed date %s" % (f, pre[0][7], b)
+                        else:
+                            diff = abs(oracle_ms(b) - oracle_ms(f))
+                            if diff > 1 or (f[6] == 0 and b != f):
+                                m = "round trip of %s (zone %s) gives %s (off by %d ms)" % (f, pre[0][7], b, diff)
+                            else:
+                                m = self.check_abs(b, o["abs"], "the round trip")
+            elif k == "add":
+                if wf[0]:
+                    nb = bitsf(op[3])
+                    nb = int(nb) if op[4] else nb
+                    m = self.check_moved("add%s(%r) on %s (zone %s)" % (op[2].capitalize(), nb, pre[0][:7], pre[0][7]), pre[0],
+                                         Fraction(nb) * self.MULT[op[2]], o)
+            elif k == "tadd":
+                nb = bitsf(op[1])
+                for q, r in zip(pre, o["l"]):
+                    if wellformed(q[:7]) and not m:
+                        m = self.check_moved("Track.addSeconds(%r) on the timestamp %s (zone %s)" % (nb, q[:7], q[7]), q, Fraction(nb), r)
+            elif k in ("conv", "tconv"):
+                # the statement does not say what a change of zone is; what comes back is a calendar stamp read from a number
+                # of seconds: it must be a well-formed one whose seconds agree with the calendar
+                z = op[2] if k == "conv" else op[1]
+                for q, r in zip(pre, [o] if k == "conv" else o["l"]):
+                    if wellformed(q[:7]) and not m and Fraction(oracle_ms(q[:7]), 1000) + 3600 * (z - q[7]) >= 0:
+                        if not wellformed(r["o"][:7]):
+                            m = "convertToZone(%s) on %s (zone %s) gives the malformed date %s" % (z, q[:7], q[7], r["o"][:7])
+                        else:
+                            m = self.check_abs(r["o"][:7], r["abs"], "the result of convertToZone(%s) on %s (zone %s)," % (z, q[:7], q[7]))
+            elif k == "abs":
+                if wf[0]:
+                    m = self.check_abs(pre[0][:7], o["x"], "(zone %s)" % pre[0][7])
+            elif k == "cmp":
+                if all(wf):
+                    a, b = oracle_ms(pre[0][:7]), oracle_ms(pre[1][:7])
+                    want = self.ops_of(a, b)
+                    sa, sb = bitsf(o["x"][0]), bitsf(o["x"][1])
+                    if o["f"] != want:
+                        m = "comparisons [<,>,==,<=,>=,!=] of %s (zone %s) and %s (zone %s) give %s, epoch order says %s" % (
+                            pre[0][:7], pre[0][7], pre[1][:7], pre[1][7], o["f"], want)
+                    elif o["f"] != self.ops_of(sa, sb):
+                        m = "comparisons [<,>,==,<=,>=,!=] of %s (zone %s) and %s (zone %s) give %s, their toAbsTime() values %r, %r say %s" % (
+                            pre[0][:7], pre[0][7], pre[1][:7], pre[1][7], o["f"], sa, sb, self.ops_of(sa, sb))
+            elif k == "sub":
+                if all(wf):
+                    a, b = oracle_ms(pre[0][:7]), oracle_ms(pre[1][:7])
+                    d = bitsf(o["x"])
+                    if abs(Fraction(d) - Fraction(a - b, 1000)) > 4 * math.ulp(max(a, b, 1000) / 1000.0) or self.ops_of(d, 0)[:3] != self.ops_of(a, b)[:3]:
+                        m = "%s (zone %s) - %s (zone %s) = %r, the seconds differ by %s" % (pre[0][:7], pre[0][7], pre[1][:7], pre[1][7], d, (a - b) / 1000.0)
+            if m:
+                return m + said(i)
+        # a stamp denotes its instant for as long as nobody assigns to it: at the end of the program every attribute the
+        # program did not assign (directly, or the zone through Track.setTimeZone) still has the value it had when the
+        # object was returned
+        lay = prog_layout(ops)
+        created, written, track = {}, {}, []
+        for (a, c), op, o in zip(lay, ops, out["outs"]):
+            if op[0] in OBJ_OPS:
+                created[a] = (o["o"], op)
+            elif op[0] in ("tconv", "tadd"):
+                for j, r in enumerate(o["l"]):
+                    created[a + j] = (r["o"], op)
+                track = list(range(a, a + c))
+            elif op[0] == "trk":
+                track = list(op[1])
+            elif op[0] == "set":
+                written.setdefault(op[1], set()).add(op[2])
+            elif op[0] == "tset":
+                for sl in track:
+                    written.setdefault(sl, set()).add(7)
+        for sl, (was, op) in sorted(created.items()):
+            now = out["store"][sl]
+            for x in range(8):
+                if x not in written.get(sl, ()) and now[x] != was[x]:
+                    return "the stamp returned by %s was %s (zone %s); after the rest of the program, which never assigns to its %s, it is %s (zone %s) (program %s)" % (
+                        op, was[:7], was[7], ATTRS[x], now[:7], now[7], json_short(ops))
+        return None
+
     def spec(self, case, out):
         if "err" in out:
             return "raised %s" % out["err"]
         k = case["kind"]
+        if k == "prog":
+            return self.spec_prog(case, out)
         if k == "day":
             f = case["f"]
             want = oracle_ms(f)
@@ -678,10 +1254,11 @@ class P(Prop):
                 return "%s gives %s, expected %s" % (what, got, oracle_fields(int(want * 1000)))
             return self.check_abs(got, out["res"]["abs"], "the result")
         if k == "ctor":
-            # The property speaks about conversions and comparisons, not about parsing, defaults or aliasing: what
-            # ObsTime(str)/readTimestamp parse, what ObsTime() is and that copy() is a distinct object are checked
-            # against the model (correspondence). The oracle only asks what the statement asks of the stamps built
-            # this way: their seconds agree with the calendar, and the copy compares as its seconds do.
+            # The property speaks about conversions and comparisons, not about parsing or defaults: what
+            # ObsTime(str)/readTimestamp parse and what ObsTime() is are checked against the model (correspondence).
+            # The oracle only asks what the statement asks of the stamps built this way: their seconds agree with the
+            # calendar, and the copy compares as its seconds do. (Identity of objects and what a later call or assignment
+            # does to an earlier result: the `prog` stream.)
             for name, o in (("ObsTime(%r)" % out["str"], out["ctor"]), ("ObsTime()", out["default"])):
                 if wellformed(o["f"]):
                     m = self.check_abs(o["f"], o["abs"], name + " =")
@@ -698,6 +1275,22 @@ class P(Prop):
     # ---------------------------------------------------------------- shrinking / search
     def shrink(self, case):
         k = case["kind"]
+        if any(case.get("z") or []):
+            yield {x: v for x, v in case.items() if x != "z"}
+        if k == "prog":
+            ops = case["ops"]
+            for n in range(len(ops) - 1, 0, -1):          # shorter prefixes
+                if n < len(ops):
+                    yield {"kind": "prog", "ops": ops[:n]}
+            for i in range(len(ops) - 1, -1, -1):        # one statement less
+                r = prog_without(ops, i)
+                if r:
+                    yield {"kind": "prog", "ops": r}
+            for i, op in enumerate(ops):                 # plainer statements
+                if op[0] == "new" and op[1][3:] != [0, 0, 0, 0]:
+                    yield {"kind": "prog", "ops": ops[:i] + [["new", op[1][:3] + [0, 0, 0, 0], op[2]]] + ops[i + 1:]}
+                if op[0] == "read" and op[2] != "f":
+                    yield {"kind": "prog", "ops": ops[:i] + [["read", op[1], "f"]] + ops[i + 1:]}
         if k == "secs" and case["n"] > 1:
             h = case["n"] // 2
             yield {"kind": "secs", "start": case["start"], "n": h}
